@@ -158,7 +158,21 @@ class Repo:
         try:
             return self.functions[fid]
         except KeyError:
-            raise AnalysisError('anchor function %s not found' % fid)
+            pass
+        # a function that was moved to a sibling module and is re-exported by `from .x import name` keeps its anchor
+        mod, _, name = fid.partition(':')
+        m = self.modules.get(mod)
+        for _hop in range(3):
+            if m is None or '.' in name:
+                break
+            tgt = m.imports.get(name)
+            if not tgt or '.' not in tgt:
+                break
+            mod2, name2 = tgt.rsplit('.', 1)
+            if mod2 + ':' + name2 in self.functions:
+                return self.functions[mod2 + ':' + name2]
+            m, name = self.modules.get(mod2), name2
+        raise AnalysisError('anchor function %s not found' % fid)
 
     def has_func(self, fid):
         return fid in self.functions
